@@ -275,8 +275,7 @@ Section LoadInv.
     (forall s ev, event_ok ev -> Inv s -> Inv (fst (fst (cb s ev)))) ->
     forall o s, Inv s -> Inv (fst (parse_opened NM cb o s)).
   Proof.
-    intros S cb Inv Hcb o s Hs. unfold parse_opened. destruct o as [|data f|].
-    - pose proof (parse_stream_inv_ok cb Inv Hcb [] NoFault s Hs) as H. destruct (parse_stream NM cb [] NoFault s). exact H.
+    intros S cb Inv Hcb o s Hs. unfold parse_opened. destruct o as [data f|].
     - pose proof (parse_stream_inv_ok cb Inv Hcb data f s Hs) as H. destruct (parse_stream NM cb data f s). exact H.
     - pose proof (parse_stream_inv_ok cb Inv Hcb [] (FailAt 0) s Hs) as H. destruct (parse_stream NM cb [] (FailAt 0) s). exact H.
   Qed.
